@@ -46,26 +46,59 @@ theorem liveCrumbs_editJar (c : Ctx) (jar : List Crumb) (h : ∀ cr ∈ jar, cr.
 theorem namedFields_append (n : Bytes) (a b : List Field) : namedFields n (a ++ b) = namedFields n a ++ namedFields n b := by
   simp [namedFields]
 
-theorem namedFields_walk_other (c : Ctx) (n : Bytes) (h1 : lower n ≠ lower sConnection) (h2 : lower n ≠ lower sXRealIp)
-    (fs : List Field) : namedFields n (walkRequest c fs) = namedFields n fs := by
-  induction fs with
+theorem kept_not_named {k n : Bytes} (hk : keptByWalk k = true)
+    (hn : ∀ m ∈ [sXFProto, sXFPort, sXFFor, sForwarded, sUserAgent], lower n ≠ lower m) : eqNoCase k n = false := by
+  simp only [keptByWalk, Bool.or_eq_true] at hk
+  rcases hk with (((h | h) | h) | h) | h
+  · exact eqNoCase_false_of_lower h (hn _ (by simp))
+  · exact eqNoCase_false_of_lower h (hn _ (by simp))
+  · exact eqNoCase_false_of_lower h (hn _ (by simp))
+  · exact eqNoCase_false_of_lower h (hn _ (by simp))
+  · exact eqNoCase_false_of_lower h (hn _ (by simp))
+
+/-- a name the block walk neither rewrites nor removes -/
+def WalkPlain (c : Ctx) (n : Bytes) : Prop :=
+  lower n ≠ lower sConnection ∧ lower n ≠ lower sXRealIp ∧ lower n ≠ lower sXRequestId ∧
+  eqNoCase c.sozuIdHeader n = false
+
+theorem namedFields_walk_other (c : Ctx) (n : Bytes) (hn : WalkPlain c n) (seen : Bool)
+    (fs : List Field) : namedFields n (walkRequest c seen fs) = namedFields n fs := by
+  induction fs generalizing seen with
   | nil => rfl
   | cons f tl ih =>
-    simp only [namedFields] at ih
     cases f with
-    | cookies => simp [walkRequest, namedFields, List.filter_cons, isHdrNamed, ih]
+    | cookies => have := ih seen; simp only [namedFields] at this; simp [walkRequest, namedFields, List.filter_cons, isHdrNamed, this]
     | hdr k v =>
+      have keep : ∀ sn, namedFields n (Field.hdr k v :: walkRequest c sn tl) = namedFields n (Field.hdr k v :: tl) := by
+        intro sn; have := ih sn; simp only [namedFields, List.filter_cons] at this ⊢; rw [this]
+      have drop : ∀ sn, eqNoCase k n = false → namedFields n (walkRequest c sn tl) = namedFields n (Field.hdr k v :: tl) := by
+        intro sn hk; have := ih sn
+        simp only [namedFields, List.filter_cons, isHdrNamed, hk, Bool.false_eq_true, ↓reduceIte] at this ⊢; exact this
       simp only [walkRequest]
       split
       · next hk =>
-        have := eqNoCase_false_of_lower hk h1
-        split <;> simp [namedFields, List.filter_cons, isHdrNamed, this, ih]
+        have hkn := eqNoCase_false_of_lower hk hn.1
+        have := ih seen
+        simp only [namedFields] at this
+        split <;> simp [namedFields, List.filter_cons, isHdrNamed, hkn, this]
       · split
-        · next hk =>
-          simp only [Bool.and_eq_true] at hk
-          have := eqNoCase_false_of_lower hk.1 h2
-          simp [namedFields, List.filter_cons, isHdrNamed, this, ih]
-        · simp [namedFields, List.filter_cons, ih]
+        · exact keep seen
+        · split
+          · next hk => simp only [Bool.and_eq_true] at hk; exact drop seen (eqNoCase_false_of_lower hk.1 hn.2.1)
+          · split
+            · next hk =>
+              have hkn := eqNoCase_false_of_lower hk hn.2.2.1
+              split
+              · exact drop true hkn
+              · exact keep true
+            · split
+              · next hk =>
+                have hkn : eqNoCase k n = false := by
+                  rw [eqNoCase_lower_const hk n]
+                  have := hn.2.2.2
+                  simpa [eqNoCase] using this
+                exact drop seen hkn
+              · exact keep seen
 
 theorem namedFields_modifyLast_other (n m suf : Bytes) (hnm : lower n ≠ lower m) (fs : List Field) :
     namedFields n (modifyLast (isHdrNamed m) (appendVal suf) fs).1 = namedFields n fs := by
@@ -86,33 +119,40 @@ theorem namedFields_modifyLast_other (n m suf : Bytes) (hnm : lower n ≠ lower 
           simp [namedFields, List.filter_cons, isHdrNamed, appendVal, this, ih]
       · simp [namedFields, List.filter_cons, ih]
 
-/-- `n` is none of the four names the editor rewrites in place -/
-def Plain (n : Bytes) : Prop :=
-  lower n ≠ lower sConnection ∧ lower n ≠ lower sXRealIp ∧ lower n ≠ lower sXFFor ∧ lower n ≠ lower sForwarded
+/-- `n` is none of the names the editor rewrites, removes or de-duplicates -/
+def Plain (c : Ctx) (n : Bytes) : Prop :=
+  WalkPlain c n ∧ lower n ≠ lower sXFFor ∧ lower n ≠ lower sForwarded
 
 theorem const_named_false {n m cm : Bytes} (hc : lower cm = lower m) (h : lower n ≠ lower m) : eqNoCase cm n = false := by
   simp only [eqNoCase, hc, beq_eq_false_iff_ne, ne_eq]
   exact fun e => h e.symm
 
-theorem peerAdditions_named_nil (c : Ctx) (p : Addr) (a b : Bool) (n : Bytes) (hn : Plain n) :
+theorem peerAdditions_named_nil (c : Ctx) (p : Addr) (a b : Bool) (n : Bytes)
+    (h1 : lower n ≠ lower sXFFor) (h2 : lower n ≠ lower sForwarded) (h3 : lower n ≠ lower sXRealIp) :
     namedFields n (peerAdditions c p a b) = [] := by
-  have e1 := const_named_false (cm := cXFFor) (by decide) hn.2.2.1
-  have e2 := const_named_false (cm := cForwarded) (by decide) hn.2.2.2
-  have e3 := const_named_false (cm := cXRealIp) (by decide) hn.2.1
+  have e1 := const_named_false (cm := cXFFor) (by decide) h1
+  have e2 := const_named_false (cm := cForwarded) (by decide) h2
+  have e3 := const_named_false (cm := cXRealIp) (by decide) h3
   cases a <;> cases b <;> cases hs : c.sendXRealIp <;>
     simp [peerAdditions, namedFields, List.filter_append, List.filter_cons, isHdrNamed, e1, e2, e3, hs]
 
-theorem named_edit (c : Ctx) (n : Bytes) (hn : Plain n) (fs : List Field) :
-    namedFields n (editRequest c fs) = namedFields n fs ++ namedFields n (tailAdditions c fs) := by
+/-- for a name other than the three forwarding headers: what the walk left,
+    plus what is always pushed -/
+theorem named_edit_walk (c : Ctx) (n : Bytes) (h1 : lower n ≠ lower sXFFor) (h2 : lower n ≠ lower sForwarded)
+    (h3 : lower n ≠ lower sXRealIp) (fs : List Field) :
+    namedFields n (editRequest c fs) = namedFields n (walkRequest c false fs) ++ namedFields n (tailAdditions c fs) := by
   unfold editRequest
   cases hp : c.peer with
-  | none => simp only; rw [namedFields_append, namedFields_walk_other c n hn.1 hn.2.1]
+  | none => simp only; rw [namedFields_append]
   | some p =>
     simp only
-    rw [namedFields_append, namedFields_append, peerAdditions_named_nil c p _ _ n hn,
-      namedFields_modifyLast_other n sForwarded _ hn.2.2.2, namedFields_modifyLast_other n sXFFor _ hn.2.2.1,
-      namedFields_walk_other c n hn.1 hn.2.1]
+    rw [namedFields_append, namedFields_append, peerAdditions_named_nil c p _ _ n h1 h2 h3,
+      namedFields_modifyLast_other n sForwarded _ h2, namedFields_modifyLast_other n sXFFor _ h1]
     simp
+
+theorem named_edit (c : Ctx) (n : Bytes) (hn : Plain c n) (fs : List Field) :
+    namedFields n (editRequest c fs) = namedFields n fs ++ namedFields n (tailAdditions c fs) := by
+  rw [named_edit_walk c n hn.2.1 hn.2.2 hn.1.2.1, namedFields_walk_other c n hn.1]
 
 theorem hasHdr_iff (n : Bytes) (fs : List Field) : hasHdr n fs = !(namedFields n fs).isEmpty := by
   induction fs with
@@ -121,16 +161,8 @@ theorem hasHdr_iff (n : Bytes) (fs : List Field) : hasHdr n fs = !(namedFields n
     simp only [hasHdr, namedFields, List.any_cons, List.filter_cons] at ih ⊢
     cases hf : isHdrNamed n f <;> simp [hf, ih]
 
-theorem idName_plain (c : Ctx) (hid : IdNameOK c) : Plain c.sozuIdHeader := by
-  have h := fun m hm => hid m hm
-  refine ⟨?_, ?_, ?_, ?_⟩ <;> intro e
-  · have := h sConnection (by simp); simp [eqNoCase, e] at this
-  · have := h sXRealIp (by simp); simp [eqNoCase, e] at this
-  · have := h sXFFor (by simp); simp [eqNoCase, e] at this
-  · have := h sForwarded (by simp); simp [eqNoCase, e] at this
-
 theorem id_not_named (c : Ctx) (hid : IdNameOK c) (m : Bytes)
-    (hm : m ∈ [sXFFor, sForwarded, sXRealIp, sXFProto, sXFPort, sXRequestId, sConnection]) :
+    (hm : m ∈ [sXFFor, sForwarded, sXRealIp, sXFProto, sXFPort, sXRequestId, sConnection, sUserAgent]) :
     isHdrNamed m (.hdr c.sozuIdHeader c.requestId) = false := by
   simpa [isHdrNamed] using hid m hm
 
@@ -169,7 +201,7 @@ theorem named_nil_of_not_has {n : Bytes} {fs : List Field} (h : hasHdr n fs = fa
 theorem proto_when_absent (c : Ctx) (fs : List Field) (hid : IdNameOK c) :
     namedFields sXFProto (editRequest c fs) =
       (if hasHdr sXFProto fs then namedFields sXFProto fs else [.hdr cXFProto c.proto]) := by
-  rw [named_edit c sXFProto ⟨by decide, by decide, by decide, by decide⟩,
+  rw [named_edit c sXFProto ⟨⟨by decide, by decide, by decide, hid _ (by simp)⟩, by decide, by decide⟩,
     tail_named c fs sXFProto false true false false false (by decide) (by decide) (by decide) (by decide) (hid _ (by simp))]
   cases h : hasHdr sXFProto fs
   · simp [named_nil_of_not_has h]
@@ -178,26 +210,109 @@ theorem proto_when_absent (c : Ctx) (fs : List Field) (hid : IdNameOK c) :
 theorem port_when_absent (c : Ctx) (fs : List Field) (hid : IdNameOK c) :
     namedFields sXFPort (editRequest c fs) =
       (if hasHdr sXFPort fs then namedFields sXFPort fs else [.hdr cXFPort c.publicAddr.port]) := by
-  rw [named_edit c sXFPort ⟨by decide, by decide, by decide, by decide⟩,
+  rw [named_edit c sXFPort ⟨⟨by decide, by decide, by decide, hid _ (by simp)⟩, by decide, by decide⟩,
     tail_named c fs sXFPort true false false false false (by decide) (by decide) (by decide) (by decide) (hid _ (by simp))]
   cases h : hasHdr sXFPort fs
   · simp [named_nil_of_not_has h]
   · simp
 
 theorem const_vs_id (c : Ctx) (hid : IdNameOK c) {cm m : Bytes} (hc : lower cm = lower m)
-    (hm : m ∈ [sXFFor, sForwarded, sXRealIp, sXFProto, sXFPort, sXRequestId, sConnection]) :
+    (hm : m ∈ [sXFFor, sForwarded, sXRealIp, sXFProto, sXFPort, sXRequestId, sConnection, sUserAgent]) :
     eqNoCase cm c.sozuIdHeader = false := by
   have := hid m hm
   simp only [eqNoCase, beq_eq_false_iff_ne, ne_eq] at this ⊢
   rw [hc]
   exact fun e => this e.symm
 
-theorem single_ids (c : Ctx) (fs : List Field) (hid : IdNameOK c)
-    (h1 : (namedFields sXRequestId fs).length ≤ 1) (h2 : namedFields c.sozuIdHeader fs = []) :
+theorem idne (c : Ctx) (hid : IdNameOK c) (m : Bytes)
+    (hm : m ∈ [sXFFor, sForwarded, sXRealIp, sXFProto, sXFPort, sXRequestId, sConnection, sUserAgent]) :
+    lower c.sozuIdHeader ≠ lower m := by
+  have := hid m hm
+  simpa [eqNoCase] using this
+
+/-- the walk keeps exactly the first `X-Request-Id` -/
+theorem walk_request_id (c : Ctx) (seen : Bool) (fs : List Field) :
+    namedFields sXRequestId (walkRequest c seen fs) = if seen then [] else (namedFields sXRequestId fs).take 1 := by
+  induction fs generalizing seen with
+  | nil => cases seen <;> rfl
+  | cons f tl ih =>
+    cases f with
+    | cookies => have := ih seen; simp only [namedFields] at this; simp [walkRequest, namedFields, List.filter_cons, isHdrNamed, this]
+    | hdr k v =>
+      have other : ∀ sn, eqNoCase k sXRequestId = false →
+          namedFields sXRequestId (walkRequest c sn tl) = (if sn then [] else (namedFields sXRequestId (Field.hdr k v :: tl)).take 1) ∧
+          namedFields sXRequestId (Field.hdr k v :: walkRequest c sn tl) = (if sn then [] else (namedFields sXRequestId (Field.hdr k v :: tl)).take 1) := by
+        intro sn hk
+        have := ih sn
+        simp only [namedFields] at this
+        simp [namedFields, List.filter_cons, isHdrNamed, hk, this]
+      simp only [walkRequest]
+      split
+      · next hk =>
+        have hkn := eqNoCase_false_of_lower (n := sXRequestId) hk (by decide)
+        have := ih seen
+        simp only [namedFields] at this
+        split <;> simp [namedFields, List.filter_cons, isHdrNamed, hkn, this]
+      · split
+        · next hk => exact (other seen (kept_not_named hk (by decide))).2
+        · split
+          · next hk =>
+            simp only [Bool.and_eq_true] at hk
+            exact (other seen (eqNoCase_false_of_lower (n := sXRequestId) hk.1 (by decide))).1
+          · split
+            · next hk =>
+              have := ih true
+              simp only [namedFields] at this
+              cases seen <;> simp [namedFields, List.filter_cons, isHdrNamed, hk, this]
+            · next hk =>
+              have hk' : eqNoCase k sXRequestId = false := by simpa using hk
+              split
+              · exact (other seen hk').1
+              · exact (other seen hk').2
+
+/-- the walk removes every client field named like the correlation header -/
+theorem walk_correlation (c : Ctx) (hid : IdNameOK c) (seen : Bool) (fs : List Field) :
+    namedFields c.sozuIdHeader (walkRequest c seen fs) = [] := by
+  induction fs generalizing seen with
+  | nil => rfl
+  | cons f tl ih =>
+    cases f with
+    | cookies => have := ih seen; simp only [namedFields] at this; simp [walkRequest, namedFields, List.filter_cons, isHdrNamed, this]
+    | hdr k v =>
+      have notn : ∀ sn, eqNoCase k c.sozuIdHeader = false →
+          namedFields c.sozuIdHeader (Field.hdr k v :: walkRequest c sn tl) = [] := by
+        intro sn hk; have := ih sn; simp only [namedFields] at this
+        simp [namedFields, List.filter_cons, isHdrNamed, hk, this]
+      simp only [walkRequest]
+      split
+      · next hk =>
+        have hkn := eqNoCase_false_of_lower hk (idne c hid _ (by simp))
+        have := ih seen
+        simp only [namedFields] at this
+        split <;> simp [namedFields, List.filter_cons, isHdrNamed, hkn, this]
+      · split
+        · next hk =>
+          exact notn seen (kept_not_named hk (by
+            intro m hm
+            simp only [List.mem_cons, List.mem_nil_iff, or_false] at hm
+            rcases hm with rfl | rfl | rfl | rfl | rfl <;> exact idne c hid _ (by simp)))
+        · split
+          · exact ih seen
+          · split
+            · next hk =>
+              have hkn := eqNoCase_false_of_lower hk (idne c hid _ (by simp))
+              split
+              · exact ih true
+              · exact notn true hkn
+            · split
+              · exact ih seen
+              · next hk => exact notn seen (by simpa using hk)
+
+theorem single_ids (c : Ctx) (fs : List Field) (hid : IdNameOK c) :
     (namedFields sXRequestId (editRequest c fs)).length = 1 ∧
     namedFields c.sozuIdHeader (editRequest c fs) = [.hdr c.sozuIdHeader c.requestId] := by
   constructor
-  · rw [named_edit c sXRequestId ⟨by decide, by decide, by decide, by decide⟩,
+  · rw [named_edit_walk c sXRequestId (by decide) (by decide) (by decide), walk_request_id,
       tail_named c fs sXRequestId false false false true false (by decide) (by decide) (by decide) (by decide) (hid _ (by simp))]
     cases h : hasHdr sXRequestId fs
     · simp [named_nil_of_not_has h]
@@ -205,8 +320,9 @@ theorem single_ids (c : Ctx) (fs : List Field) (hid : IdNameOK c)
       rw [h] at this
       cases hl : namedFields sXRequestId fs with
       | nil => simp [hl] at this
-      | cons a t => simp [hl] at h1 ⊢; exact h1
-  · rw [named_edit c c.sozuIdHeader (idName_plain c hid), h2,
+      | cons a t => simp
+  · rw [named_edit_walk c c.sozuIdHeader (idne c hid _ (by simp)) (idne c hid _ (by simp)) (idne c hid _ (by simp)),
+      walk_correlation c hid,
       tail_named c fs c.sozuIdHeader false false false false true
         (const_vs_id c hid (m := sXFPort) (by decide) (by simp)) (const_vs_id c hid (m := sXFProto) (by decide) (by simp))
         (const_vs_id c hid (m := sConnection) (by decide) (by simp)) (const_vs_id c hid (m := sXRequestId) (by decide) (by simp))
@@ -250,14 +366,14 @@ theorem xff_last (c : Ctx) (p : Addr) (fs : List Field) (hp : c.peer = some p) (
     (tail_not_named c fs sXFFor (by decide) (by decide) (by decide) (by decide) (hid _ (by simp)))]
   simp only
   rw [lastValue_append, lastValue_peer_xff]
-  obtain ⟨m1, m2⟩ := lastValue_modifyLast_same sXFFor (sCommaSp ++ p.ip) (walkRequest c fs)
-  cases hx : (modifyLast (isHdrNamed sXFFor) (appendVal (sCommaSp ++ p.ip)) (walkRequest c fs)).2 with
+  obtain ⟨m1, m2⟩ := lastValue_modifyLast_same sXFFor (sCommaSp ++ p.ip) (walkRequest c false fs)
+  cases hx : (modifyLast (isHdrNamed sXFFor) (appendVal (sCommaSp ++ p.ip)) (walkRequest c false fs)).2 with
   | false => exact ⟨[], by simp⟩
   | true =>
     simp only [↓reduceIte]
     rw [lastValue_modifyLast_other sXFFor sForwarded _ (by decide), m1]
     rw [hx] at m2
-    cases hl : lastValue sXFFor (walkRequest c fs) with
+    cases hl : lastValue sXFFor (walkRequest c false fs) with
     | none => simp [hl] at m2
     | some v => exact ⟨v ++ sCommaSp, by simp⟩
 
@@ -270,15 +386,15 @@ theorem forwarded_last (c : Ctx) (p : Addr) (fs : List Field) (hp : c.peer = som
   simp only
   rw [lastValue_append, lastValue_peer_fwd]
   obtain ⟨m1, m2⟩ := lastValue_modifyLast_same sForwarded (sCommaProto ++ c.proto ++ forBy p c.publicAddr)
-    (modifyLast (isHdrNamed sXFFor) (appendVal (sCommaSp ++ p.ip)) (walkRequest c fs)).1
+    (modifyLast (isHdrNamed sXFFor) (appendVal (sCommaSp ++ p.ip)) (walkRequest c false fs)).1
   cases hx : (modifyLast (isHdrNamed sForwarded) (appendVal (sCommaProto ++ c.proto ++ forBy p c.publicAddr))
-      (modifyLast (isHdrNamed sXFFor) (appendVal (sCommaSp ++ p.ip)) (walkRequest c fs)).1).2 with
+      (modifyLast (isHdrNamed sXFFor) (appendVal (sCommaSp ++ p.ip)) (walkRequest c false fs)).1).2 with
   | false => exact ⟨[], by simp⟩
   | true =>
     simp only [↓reduceIte]
     rw [m1]
     rw [hx] at m2
-    cases hl : lastValue sForwarded (modifyLast (isHdrNamed sXFFor) (appendVal (sCommaSp ++ p.ip)) (walkRequest c fs)).1 with
+    cases hl : lastValue sForwarded (modifyLast (isHdrNamed sXFFor) (appendVal (sCommaSp ++ p.ip)) (walkRequest c false fs)).1 with
     | none => simp [hl] at m2
     | some v =>
       refine ⟨v ++ sCommaSp, ?_⟩
@@ -294,25 +410,37 @@ theorem xrealip_last (c : Ctx) (p : Addr) (fs : List Field) (hp : c.peer = some 
   simp only
   rw [lastValue_append, lastValue_peer_xri c p _ _ hs]
 
-theorem walk_elides (c : Ctx) (fs : List Field) (he : c.elideXRealIp = true) :
-    namedFields sXRealIp (walkRequest c fs) = [] := by
-  induction fs with
+theorem walk_elides (c : Ctx) (seen : Bool) (fs : List Field) (he : c.elideXRealIp = true) :
+    namedFields sXRealIp (walkRequest c seen fs) = [] := by
+  induction fs generalizing seen with
   | nil => rfl
   | cons f tl ih =>
-    simp only [namedFields] at ih
     cases f with
-    | cookies => simp [walkRequest, namedFields, List.filter_cons, isHdrNamed, ih]
+    | cookies => have := ih seen; simp only [namedFields] at this; simp [walkRequest, namedFields, List.filter_cons, isHdrNamed, this]
     | hdr k v =>
+      have notn : ∀ sn, eqNoCase k sXRealIp = false → namedFields sXRealIp (Field.hdr k v :: walkRequest c sn tl) = [] := by
+        intro sn hk; have := ih sn; simp only [namedFields] at this
+        simp [namedFields, List.filter_cons, isHdrNamed, hk, this]
       simp only [walkRequest]
       split
       · next hk =>
-        have := eqNoCase_false_of_lower (n := sXRealIp) hk (by decide)
-        split <;> simp [namedFields, List.filter_cons, isHdrNamed, this, ih]
+        have hkn := eqNoCase_false_of_lower (n := sXRealIp) hk (by decide)
+        have := ih seen
+        simp only [namedFields] at this
+        split <;> simp [namedFields, List.filter_cons, isHdrNamed, hkn, this]
       · split
-        · simpa [namedFields] using ih
-        · next h1 h2 =>
-          have : eqNoCase k sXRealIp = false := by simpa [he] using h2
-          simp [namedFields, List.filter_cons, isHdrNamed, this, ih]
+        · next hk => exact notn seen (kept_not_named hk (by decide))
+        · split
+          · exact ih seen
+          · next hx =>
+            have hkn : eqNoCase k sXRealIp = false := by simpa [he] using hx
+            split
+            · split
+              · exact ih true
+              · exact notn true hkn
+            · split
+              · exact ih seen
+              · exact notn seen hkn
 
 theorem xrealip_elided (c : Ctx) (p : Addr) (fs : List Field) (hp : c.peer = some p) (hid : IdNameOK c)
     (he : c.elideXRealIp = true) :
@@ -322,11 +450,11 @@ theorem xrealip_elided (c : Ctx) (p : Addr) (fs : List Field) (hp : c.peer = som
   rw [namedFields_append, namedFields_append,
     tail_named c fs sXRealIp false false false false false (by decide) (by decide) (by decide) (by decide) (hid _ (by simp)),
     namedFields_modifyLast_other sXRealIp sForwarded _ (by decide),
-    namedFields_modifyLast_other sXRealIp sXFFor _ (by decide), walk_elides c fs he]
+    namedFields_modifyLast_other sXRealIp sXFFor _ (by decide), walk_elides c false fs he]
   cases hs : c.sendXRealIp <;>
-    cases (modifyLast (isHdrNamed sXFFor) (appendVal (sCommaSp ++ p.ip)) (walkRequest c fs)).2 <;>
+    cases (modifyLast (isHdrNamed sXFFor) (appendVal (sCommaSp ++ p.ip)) (walkRequest c false fs)).2 <;>
     cases (modifyLast (isHdrNamed sForwarded) (appendVal (sCommaProto ++ c.proto ++ forBy p c.publicAddr))
-      (modifyLast (isHdrNamed sXFFor) (appendVal (sCommaSp ++ p.ip)) (walkRequest c fs)).1).2 <;>
+      (modifyLast (isHdrNamed sXFFor) (appendVal (sCommaSp ++ p.ip)) (walkRequest c false fs)).1).2 <;>
     simp [peerAdditions, hs, namedFields, List.filter_cons, isHdrNamed,
       show eqNoCase cXFFor sXRealIp = false by decide, show eqNoCase cForwarded sXRealIp = false by decide,
       show eqNoCase cXRealIp sXRealIp = true by decide]
@@ -464,5 +592,15 @@ theorem applyEdits_keeps (es : List HeaderEdit) (fs : List Field) (f : Field) (h
         not_exists, not_and, and_imp]
       intro e he hd hke
       exact h e he hd (by rw [hk, hke])
+
+theorem request_id_first (c : Ctx) (fs : List Field) (hid : IdNameOK c) (k v : Bytes) (rest : List Field)
+    (h : namedFields sXRequestId fs = .hdr k v :: rest) :
+    namedFields sXRequestId (editRequest c fs) = [.hdr k v] := by
+  rw [named_edit_walk c sXRequestId (by decide) (by decide) (by decide), walk_request_id,
+    tail_named c fs sXRequestId false false false true false (by decide) (by decide) (by decide) (by decide) (hid _ (by simp)), h]
+  have hh := hasHdr_iff sXRequestId fs
+  rw [h] at hh
+  have : hasHdr sXRequestId fs = true := by simpa using hh
+  simp [this]
 
 end Sozu.Headers
